@@ -57,6 +57,7 @@ REQUIRED_THEOREMS = [
     "TapkeeVerif.EquivCompose.isomap_permutation_equivariant",
     "TapkeeVerif.EquivCompose.isomap_scale_equivariant",
     "TapkeeVerif.EquivCompose.laplacian_eigenmaps_scale_invariant",
+    "TapkeeVerif.EquivCompose.laplacian_eigenmaps_permutation_equivariant",
 ]
 
 # the thread count is C15's subject: every run here is single-threaded so that a difference between two runs is
